@@ -2,7 +2,7 @@
    correction sets; that each back-end's enumeration returns those sets is C15 / the correspondence check). *)
 From InfOCF Require Import Core Tol SysW Form Model Spec ThmOps ThmTop.
 From InfOCFProps Require Import Ex.
-From InfOCF Require Import PyLib TieZ TieW TieWTop.
+From InfOCF Require Import PyLib TieSolver TieMax TieLayer TieW TieWTop.
 From InfOCFGen Require Import SrcW.
 From Coq Require Import ZArith.
 
